@@ -43,6 +43,7 @@ type Prog struct {
 	modInfos        map[*ssa.Function]*modInfo
 	addrTaken       map[*ssa.Function]bool
 	rooted          map[*ssa.Function]map[string]int // object-precise write sets (rooted.go)
+	returnsNil      map[*ssa.Function]map[int]bool   // results that may be a nil pointer (nilcheck.go)
 	exportedMethods []*ssa.Function
 	boxedFns        map[*ssa.Function]bool
 	vtaCallees      map[*ssa.Function]map[*ssa.Function]bool
